@@ -1369,6 +1369,39 @@ func genSrvSoup(p *prng, thorough bool, w *bufio.Writer) {
 		}
 		g.line("srv %s cut", g.id)
 	}
+	// boundary frames through the whole server: every short length x every pad length x the flag combinations that
+	// decide which sections a payload has (PADDED, PRIORITY), for the three padded frame types, on a fresh connection
+	// or on an open stream
+	for _, typ := range []byte{0, 1, 5} {
+		for _, fl := range []byte{0x8, 0x28, 0x20, 0x2c, 0xc, 0x9, 0x2d} {
+			for l := 0; l <= 10; l++ {
+				for pad := 0; pad <= l+1 && pad < 256; pad++ {
+					if !thorough && p.intn(6) != 0 {
+						continue
+					}
+					g.newConn(4, 0, 0)
+					g.settings()
+					sid := uint32(1)
+					if typ == 0 || p.chance(1, 3) { // DATA needs an open stream; HEADERS on one are trailers
+						g.frame(frameBytes(1, 4, 1, g.hdrBlock(false)))
+						if typ != 0 && p.chance(1, 2) {
+							sid = 3
+						}
+					}
+					payload := make([]byte, l)
+					if l > 0 {
+						payload[0] = byte(pad)
+					}
+					for k := 1; k < l; k++ {
+						payload[k] = byte(p.intn(256))
+					}
+					g.frame(frameBytes(typ, fl, sid, payload))
+					g.ping(1)
+					g.line("srv %s cut", g.id)
+				}
+			}
+		}
+	}
 	// a peer that stops reading, goes on sending and then disconnects, with responses and control replies queued
 	// for it: the write loop is parked in a write, the writer queue fills, the read loop and the stream loop park on
 	// it; when the peer goes every loop has to end and ServeConn has to return (judged by the monitors: `mon` lines)
